@@ -152,6 +152,11 @@ func c15Check(c c15Case, rec *evid.Recorder) *Fail {
 				}
 				break
 			}
+			// parentheses the printer adds in front of the token (an integer literal
+			// receiver is printed as `(1).x`) belong to the same statement
+			if cm.Next != "" && cm.Next[0] != '(' {
+				rest = strings.TrimLeft(rest, "(")
+			}
 			if cm.Next == "" {
 				if rest != "" {
 					return failf("[%s] comment #%d# stood before the end of the input but is followed by %q in the formatted output\nformatted %q", cfg, cm.Marker, trunc(rest, 30), out)
@@ -165,6 +170,21 @@ func c15Check(c c15Case, rec *evid.Recorder) *Fail {
 				// a numeric literal may be printed in another spelling of the same number
 			} else if !strings.HasPrefix(rest, cm.Next) {
 				return failf("[%s] comment #%d# stood before %q but precedes %q in the formatted output\nformatted %q\nsrc %q", cfg, cm.Marker, cm.Next, trunc(rest, 30), out, c.Src)
+			}
+		}
+		// 1b. what stands in front of the comment is the end of the previous
+		// statement (`;` or a brace) or nothing - not a piece of the statement
+		// the comment belongs to (configurations that print every semicolon)
+		if !cfg.NoSemi {
+			var code strings.Builder // the output up to the comment, without the comments
+			last := 0
+			for i, m := range found {
+				code.WriteString(out[last:m[0]])
+				last = m[1]
+				before := strings.TrimRight(code.String(), " \t\r\n")
+				if before != "" && !strings.HasSuffix(before, ";") && !strings.HasSuffix(before, "{") && !strings.HasSuffix(before, "}") {
+					return failf("[%s] comment #%d# stood at a statement boundary but follows %q in the formatted output: it is inside a statement\nformatted %q\nsrc %q", cfg, c.Comments[i].Marker, before[max(0, len(before)-20):], out, c.Src)
+				}
 			}
 		}
 		// 2. anchor: same token carries the comment in the re-parsed output
